@@ -8,6 +8,7 @@ import (
 
 	"context"
 
+	"github.com/freeconf/yang/fc"
 	"github.com/freeconf/yang/meta"
 	"github.com/freeconf/yang/val"
 )
@@ -270,9 +271,13 @@ func BuildConstraints(sel *Selection, params map[string][]string) error {
 	if n, found := findIntParam(params, "depth"); found {
 		if n == 0 {
 			return errMaxDepthZeroNotAllowed
+		} else if n < 0 {
+			return fmt.Errorf("%w. depth cannot be negative: %d", fc.BadRequestError, n)
 		} else {
 			maxDepth.MaxDepth = n
 		}
+	} else if p, given := params["depth"]; given {
+		return fmt.Errorf("%w. depth is not a number: '%s'", fc.BadRequestError, p[0])
 	}
 	constraints.AddConstraint("depth", 10, 50, maxDepth)
 	if p, found := params["fc.range"]; found {
@@ -298,7 +303,12 @@ func BuildConstraints(sel *Selection, params map[string][]string) error {
 	}
 	maxNode := MaxNode{Max: 10000}
 	if n, found := findIntParam(params, "fc.max-node-count"); found {
+		if n < 0 {
+			return fmt.Errorf("%w. fc.max-node-count cannot be negative: %d", fc.BadRequestError, n)
+		}
 		maxNode.Max = n
+	} else if p, given := params["fc.max-node-count"]; given {
+		return fmt.Errorf("%w. fc.max-node-count is not a number: '%s'", fc.BadRequestError, p[0])
 	}
 	constraints.AddConstraint("fc.max-node-count", 10, 60, maxNode)
 
